@@ -269,7 +269,8 @@ def derive_commands(repo):
     """sub-command name -> the package function the CLI dispatches to, read from cli.py:
          X = subparsers.add_parser("name", ...)   ...   X.set_defaults(func=commands.F)
     Raises when a sub-command of COMMAND_NAMES cannot be tied to exactly one function (fail closed)."""
-    tree = ast.parse(open(os.path.join(repo, "torrentfile", "cli.py"), encoding="utf-8").read())
+    import cli_expand
+    tree = cli_expand.expand(ast.parse(open(os.path.join(repo, "torrentfile", "cli.py"), encoding="utf-8").read()))
     var_to_name, found = {}, {}
     for n in ast.walk(tree):
         if isinstance(n, ast.Assign) and len(n.targets) == 1 and isinstance(n.targets[0], ast.Name) and isinstance(n.value, ast.Call) \
